@@ -362,8 +362,24 @@ Definition wf_query (q : query) : bool :=
    domain (the duplicated header start line after add(force=True) was repaired in /repo, commit 056c3d1; the witness stays
    in corpus/C09). *)
 Definition wf_hist (mode addmode : N) (reopen : bool) (nfiles : nat) : bool := N.ltb addmode 3.
-Definition wf_C09 (mode addmode : N) (reopen : bool) (files : list finput) (qs : list query) : bool :=
+(* registration order (fastaindex.py:253-259): [order] lists the positions (in the name-sorted file list) of the files in the
+   order in which add() registers them; the file number stored with every record is the position in THAT list.  One add call
+   sorts its file names (:249-251), so only one-call-per-file histories can register in another order. *)
+Fixpoint nat_list_eqb (a b : list nat) : bool :=
+  match a, b with
+  | [], [] => true
+  | x :: a', y :: b' => (x =? y) && nat_list_eqb a' b'
+  | _, _ => false
+  end.
+Definition is_perm (order : list nat) (n : nat) : bool :=
+  (length order =? n) && forallb (fun k => existsb (Nat.eqb k) order) (seq 0 n).
+Definition wf_order (addmode : N) (order : list nat) (nfiles : nat) : bool :=
+  is_perm order nfiles && (N.eqb addmode 2 || nat_list_eqb order (seq 0 nfiles)).
+(* self.files of the index: the registered files in registration order *)
+Definition registered {A} (order : list nat) (fs : list A) (d : A) : list A := map (fun k => nth k fs d) order.
+Definition wf_C09 (mode addmode : N) (reopen : bool) (order : list nat) (files : list finput) (qs : list query) : bool :=
   (N.ltb mode 2) && negb (match files with [] => true | _ => false end) && wf_hist mode addmode reopen (length files)
+  && wf_order addmode order (length files)
   && forallb (wf_file mode) files && nodup_str (concat (map ids_of files)) && forallb wf_query qs.
 
 (* all ranges 0 <= i < j <= m on one record, api alternating get / get_fasta (expanded identically by the harness) *)
@@ -372,16 +388,18 @@ Definition box_queries (id : str) (m : nat) : list query :=
                          (seq (i + 1) (m - i))) (seq 0 m).
 
 (* ------------------------------------------------------------------ harness entry point *)
-(* the answers do not depend on the history (addmode, reopen): the stores are trusted and compared relationally *)
-Definition run_C09 (mode addmode : N) (reopen : bool) (files : list finput) (qs : list query) : val :=
+(* the answers do not depend on addmode/reopen (the stores are trusted and compared relationally); they do depend on the
+   registration order: file numbers index the registered list, which a reopened index reads back from its header *)
+Definition run_C09 (mode addmode : N) (reopen : bool) (order : list nat) (files : list finput) (qs : list query) : val :=
   let fbs := map file_bytes files in
+  let reg := registered order fbs [] in
   let sums := VL (map (fun b => VL [VI (Z.of_nat (length b)); VI (Z.of_N (adler32 b))]) fbs) in
-  VL [VB (wf_C09 mode addmode reopen files qs); sums;
-      match scan_files fbs 0 with
+  VL [VB (wf_C09 mode addmode reopen order files qs); sums;
+      match scan_files reg 0 with
       | Err k => VE k
       | Ok es =>
           match all_stored mode es with
           | Some k => VE k
-          | None => VL [VI (Z.of_nat (distinct_ids es [])); VL (map (answer mode fbs es) qs)]
+          | None => VL [VI (Z.of_nat (distinct_ids es [])); VL (map (answer mode reg es) qs)]
           end
       end].
